@@ -25,14 +25,15 @@ def run(pid, tier, seed, ctx):
         for k in range(nseeds):
             runs.append((f"seed {seed + k}", ["--seed", str(seed + k), "--cases", str(n)]))
     violations, divergences, samples = [], [], []
-    tot = {"cases": 0, "steps": 0, "distinct_nontrivial": 0, "stale_reads": 0, "api_calls": 0}
+    tot = {"cases": 0, "steps": 0, "distinct_nontrivial": 0, "stale_reads": 0, "api_calls": 0, "records_replayed_on_lean_machine": 0}
     seen_ord = {}
     for label, a in runs:
         out = os.path.join(ctx["cache"], f"conc_{pid}_{label.replace(' ', '_').replace(':', '_')}.json")
         if os.path.exists(out):
             os.remove(out)
         try:
-            p = subprocess.run([binp] + a + ["--out", out], stdout=subprocess.PIPE, stderr=subprocess.STDOUT, text=True, timeout=3000)
+            # every recorded execution is also replayed on the Lean concurrent machine (driver lines cinit/cld/cst/cac)
+            p = subprocess.run([binp] + a + ["--out", out] + (["--driver", ctx["driver"]] if ctx.get("driver") else []), stdout=subprocess.PIPE, stderr=subprocess.STDOUT, text=True, timeout=3000)
         except subprocess.TimeoutExpired:
             divergences.append({"kind": "hang", "tags": ["C10"], "case": None, "failures": [{"detail": "the concurrency harness itself did not finish: " + label}]})
             continue
